@@ -28,8 +28,11 @@ Aliasing: `res` may be the same object as `a` and/or `b` (or be disjoint from th
 stack must be disjoint from `res`.  The fpbase routines are specified for operands `< p`, like the
 C++ they replace.
 
+Also here: `cpu_supports_bmi2_adx` (the run-time selection between the two families) returns 1 iff
+`cpuid` leaf 7 reports both BMI2 (ebx bit 8) and ADX (ebx bit 19); `cpuid` is an oracle of the state.
+
 What is NOT here: theorems for the multiplication / squaring / Montgomery-reduction routines (baseline
-and BMI2/ADX families) and for `cpu_supports_bmi2_adx`.  Those have the same kind of model and are
+and BMI2/ADX families).  Those have the same kind of model and are
 tied to the real code only by the judge: for every `asm …` operation line the interpreter runs the
 generated program on the same operands and must reproduce the real routine's output exactly
 (`Driver/Judge1.lean: judgeAsm`).  The 32-bit portable build and the AArch64 / ARMv6-M assembly are
@@ -264,6 +267,18 @@ theorem fpbase_384_multiply2_eq_portable (s : State) (pr pa pp : Word) (fuel : N
   obtain ⟨w, l, v⟩ := C02.fp_multiply2 (B := 2 ^ 64) (by norm_num) (limbs_WF s.mem pa.toNat 6)
     (limbs_WF s.mem pp.toNat 6) (by simp [limbs_length]) hA
   exact val_inj (limbs_WF _ _ _) w (by rw [l, limbs_length, limbs_length]) (by rw [hv, v])
+
+/-! ## Run-time selection -/
+
+/-- `cpu_supports_bmi2_adx()` = 1 if cpuid.(eax=7, ecx=0).ebx has bits 8 and 19 set, else 0. -/
+theorem cpu_supports_bmi2_adx (s : State) (fuel : Nat) (hfuel : 13 ≤ fuel)
+    (hst : s.status = .running) (hpc : s.pc = 0) (hstk : Stack s 1) :
+    Returned s (run embedded_pairing_core_arch_x86_64_cpu_supports_bmi2_adx s fuel) ∧
+    (run embedded_pairing_core_arch_x86_64_cpu_supports_bmi2_adx s fuel).rax.toNat
+      = (if (s.cpuidFn 7 0).2.1.testBit 8 && (s.cpuidFn 7 0).2.1.testBit 19 then 1 else 0) := by
+  obtain ⟨s', h, hret, rest⟩ := cpu_supports_bmi2_adx_run s hst hpc hstk
+  rw [run_fuel h hret.halted fuel hfuel]
+  exact ⟨hret, rest⟩
 
 /-! ## Non-vacuity: a concrete entry state satisfies all hypotheses
 
